@@ -209,12 +209,15 @@ func (r *Run) Finish() {
 			continue
 		}
 		newV++
+		if newV > 40 {
+			continue // only the first 40 distinct signatures get a replay file
+		}
 		path := r.writeReplay(v)
 		if newV <= 8 {
 			lines = append(lines, fmt.Sprintf("VIOLATION property=%s replay=%s", r.Prop, path))
 			fmt.Printf("  violation sig=%s cases=%d\n", s, r.violCount[s])
 		} else if newV == 9 {
-			fmt.Printf("  ... further distinct violation signatures are written to %s only\n", filepath.Join(Root, "replays"))
+			fmt.Printf("  ... further distinct violation signatures: replay files are written for the first 40 only (%s)\n", filepath.Join(Root, "replays"))
 		}
 	}
 	for _, k := range r.knowns {
